@@ -266,6 +266,20 @@ def zone_job(a):
                                             "before": "instant %d-07-01 then this wall time" % y})
                     break
                 py_info(zs, tzoracle.t_of(y, 7, 1))
+    # (b) two specifiers alive at the same time must not influence each other (each keeps its own cache)
+    zs1, zs2 = ZoneSpecifier(info), ZoneSpecifier(info, viewing_months=13)
+    for _ in range(10):
+        y1, y2 = rnd.randrange(Y0, Y1), rnd.randrange(Y0, Y1)
+        py_info(zs1, tzoracle.t_of(y1, 7, 1))
+        py_info(zs2, tzoracle.t_of(y2, 3, 1))
+        t = tzoracle.t_of(y1, 11, 1)
+        a_ = py_info(zs1, t)                       # same year as zs1's previous query: answered from its cache
+        b_ = py_info(ZoneSpecifier(info), t)
+        res["evaluations"] += 1
+        if a_ != b_:
+            fail("python-history", {"t": t, "utc": sweeplib.iso(t), "long_lived": list(a_), "fresh": list(b_),
+                                    "before": "specifier 1 asked %d-07-01, a second specifier asked %d-03-01, specifier 1 asked again" % (y1, y2)})
+            break
     zs = ZoneSpecifier(info)
     ys = [rnd.randrange(Y0, Y1) for _ in range(12)]
     for y in ys:
